@@ -96,7 +96,7 @@ def name_injective(shape, s1, s2, i1, f1, n1, t1, t2, j1, g1, m1):
     return _inj(shape, s1, s2, i1, f1, n1, t1, t2, j1, g1, m1)
 
 
-ALPHA = ["'", '"', chr(92), " ", "=", "a", "None", "\n", "é", ""]
+ALPHA = ["'", '"', chr(92), " ", "=", "a", "None", chr(10), "' b='", ""]
 
 
 def _word(code):
@@ -106,8 +106,8 @@ def _word(code):
 
 @harness("C09", args="shape: int, c1: int, c2: int, d1: int, d2: int, i1: int, j1: int, n1: bool, m1: bool",
          pre=["0 <= shape <= 4", "0 <= c1 < 100", "0 <= c2 < 100", "0 <= d1 < 100", "0 <= d2 < 100", "-1 <= i1 <= 2", "-1 <= j1 <= 2"],
-         tiers={"quick": {"timeout": 170, "pre": ["c2 == 59 and d2 == 59", "c1 % 6 == 0", "i1 == 0 and j1 == 0 and n1 == False and m1 == False"],
-                          "parts": parts_product(parts_over("shape", range(5)), [("lo", "c1 < 50"), ("hi", "c1 >= 50")])},
+         tiers={"quick": {"timeout": 170, "pre": ["c2 == 59 and (d2 == 59 or d2 == 85 or d2 == 89)", "c1 % 10 == 9 or c1 >= 90", "d1 % 10 == 9 or d1 >= 90", "i1 == 0 and j1 == 0 and n1 == False and m1 == False"],
+                          "parts": parts_over("shape", range(5))},
                 "thorough": {"timeout": 1500, "pre": ["c2 % 10 == 9 and d2 % 10 == 9"], "parts": parts_product(parts_over("shape", range(5)), [("c%d" % k, "c1 // 10 == %d" % k) for k in range(10)])}},
          sample=(0, 3, 59, 39, 59, 0, 0, False, False),
          bounds="the same injectivity over ENUMERATED adversarial strings: two-letter words over {', \", backslash, space, =, a, 'None', newline, non-ASCII, empty}; all 5 shapes incl. (int,float) with quarter-step floats; solver-enumerated, run concretely",
